@@ -37,7 +37,7 @@ CONFIGS = {
         "rule": "one run = one logical list L (passwords with inner/leading/trailing spaces, non-ASCII, '$HEX[' look-alikes) written as "
                 "plain, random-subset $HEX[], count-prefixed (--prefixcount) and CRLF variants, each optionally with injected junk lines "
                 "(blank, tab, C0 control, undecodable bytes, unterminated last line); oracle: all three passes of every variant yield "
-                "exactly L, rulesets byte-identical except uuid/filename, counts in config.ini right, nothing forbidden leaks; then k "
+                "exactly L, rulesets byte-identical except uuid/filename, password count and encoding-error count in config.ini equal what was injected (also junk after the last valid line), nothing forbidden leaks; then k "
                 "random byte flips of the plain file: passes still agree with each other, training does not abort, nothing forbidden "
                 "leaks; non-trivial = variant with >= 1 hex line and >= 1 junk line; distinct = distinct (L, variants)",
         "components": {"real": ["TrainerFileInput.read_password (3 passes)", "run_trainer", "savers"],
